@@ -619,6 +619,9 @@ impl<'a> Gen<'a> {
                 let it = self.iter_expr(&Ty::Float, depth - 1);
                 let op = if self.tape.bool() { "$+" } else { "$*" };
                 self.label("float sum/product");
+                if self.tape.chance(1, 6) {
+                    return self.reduce_untyped_empty(op, &Ty::Float);
+                }
                 Expr::Sum(op, Ty::Float, Box::new(it))
             }
             0 => self.lit(&Ty::Float),
@@ -686,6 +689,9 @@ impl<'a> Gen<'a> {
             5 => {
                 let it = self.iter_expr(&Ty::Str, depth - 1);
                 self.label("string sum");
+                if self.tape.chance(1, 6) {
+                    return self.reduce_untyped_empty("$+", &Ty::Str);
+                }
                 Expr::Sum("$+", Ty::Str, Box::new(it))
             }
             0 => self.lit(&Ty::Str),
@@ -698,6 +704,15 @@ impl<'a> Gen<'a> {
             }
             _ => self.call_expr(&Ty::Str, depth).unwrap_or_else(|| self.lit(&Ty::Str)),
         }
+    }
+
+    /// `$+` / `$*` over the iterator of the untyped empty literal handed to a parameter declared as an
+    /// iterator over `elem`: the declared element type decides the neutral element
+    fn reduce_untyped_empty(&mut self, op: &'static str, elem: &Ty) -> Expr {
+        self.label("sum/product over []~ behind a typed parameter");
+        let body = vec![Stmt::Return(Some(Box::new(Stmt::Expr(Expr::Sum(op, elem.clone(), Box::new(Expr::Var("p0".into())))))))];
+        let f = Expr::Lambda(vec![("p0".into(), Ty::iter_of(elem.clone()))], elem.clone(), body);
+        Expr::Call(Box::new(f), vec![Expr::Iter(Box::new(Expr::Array(vec![])))])
     }
 
     fn slice_bounds(&mut self) -> (Option<Box<Expr>>, Option<Box<Expr>>) {
